@@ -267,7 +267,7 @@ func consumeParameter(s string, f func(key, val string)) (consumed, rest string,
 			break
 		}
 		rest = rest[1:]
-		rest = rest[countLeftWhitespace(rest):]
+		rest = strings.TrimLeft(rest, " ")
 		key, rest, ok = consumeKey(rest)
 		if !ok {
 			return "", s, ok
